@@ -156,7 +156,8 @@ def add_world(T: Types, reg: Registry, orch_cls=None):
             Case("unknown-id", when=lambda c: OREC.is_none(cell(c)), raises="KeyError", exact=True,
                  ensures=[("unchanged", lambda c: c.f("rec") == c.old("rec"))]),
             Case("refused-no-such-edge", when=lambda c: z3.And(OREC.is_some(cell(c)), err(c), no_edge(c)), raises="InvocationStatusTransitionError", exact=True,
-                 ensures=[("unchanged", lambda c: c.f("rec") == c.old("rec"))]),
+                 ensures=[("unchanged", lambda c: c.f("rec") == c.old("rec"))],
+                 exc_fields={"from_status": lambda c: Val(Opt(T.Status).some(T.Record.get(OREC.val(cell(c)), "status")), Opt(T.Status))}),
             Case("refused-not-the-owner", when=lambda c: z3.And(OREC.is_some(cell(c)), err(c), z3.Not(no_edge(c))), raises="InvocationStatusOwnershipError", exact=True,
                  ensures=[("unchanged", lambda c: c.f("rec") == c.old("rec"))]),
             Case("accepted", when=lambda c: z3.And(OREC.is_some(cell(c)), z3.Not(err(c))), ensures=[
